@@ -154,8 +154,13 @@ def rule_verdict_shape(ctx, rid="R4.2"):
         if ok and len(defs) == 1 and isinstance(defs[0].ast, ast.Assign):
             v = defs[0].ast.value
             tg = calls.callee(f, v) if isinstance(v, ast.Call) else []
-            ok = (any(t.kind == "func" and t.func.name == "best_match" for t in tg) and len(v.args) == 1
-                  and isinstance(v.args[0], ast.Call) and norm(v.args[0].func).endswith("iter_errors") and not v.keywords)
+            arg = v.args[0] if isinstance(v, ast.Call) and len(v.args) == 1 else None
+            if isinstance(arg, ast.Name):
+                ad = [cfg.nodes[d] for d in rd[defs[0].id].get(arg.id, ())]
+                arg = ad[0].ast.value if len(ad) == 1 and isinstance(ad[0].ast, ast.Assign) else None
+            ok = (any(t.kind == "func" and t.func.name == "best_match" for t in tg) and arg is not None
+                  and isinstance(arg, ast.Call) and norm(arg.func).endswith("iter_errors") and not v.keywords
+                  and [norm(a) for a in arg.args] == [f.params[0]])
         else:
             ok = False
     if ok:
@@ -221,6 +226,11 @@ def rule_create_from(ctx, rid="R4.4"):
             r.fail("%s|extra-field|%s" % (cont.qual, m), site(cont), "_contents lists %r which the constructor does not accept" % m)
         # dict comprehension reads each attr by its own name
         ok = any(isinstance(n, ast.Return) and "getattr(%s, " % cont.params[0] in norm(n.value) for n in walk_body(cont))
+        # the mapping pairs each listed name with getattr(self, <that same name>)
+        for n in walk_body(cont):
+            if isinstance(n, ast.Return) and isinstance(n.value, (ast.DictComp,)):
+                dc = n.value
+                ok = norm(dc.value) == "getattr(%s, %s)" % (cont.params[0], norm(dc.key)) and norm(dc.key) == norm(dc.generators[0].target) and not dc.generators[0].ifs
         if not ok:
             r.fail("%s|getattr" % cont.qual, site(cont), "_contents does not read each listed attribute from self")
     stored = {}
@@ -241,6 +251,10 @@ def rule_create_from(ctx, rid="R4.4"):
         r.ok(site(init), "every constructor parameter is stored under its own name")
     cf = E.methods["create_from"]
     ok = any(isinstance(n, ast.Return) and norm(n.value) == "%s(**%s._contents())" % (cf.params[0], cf.params[1]) for n in walk_body(cf))
+    if not ok:
+        tmp = [n for n in walk_body(cf) if isinstance(n, ast.Assign) and isinstance(n.targets[0], ast.Name) and norm(n.value) == "%s._contents()" % cf.params[1]]
+        if len(tmp) == 1:
+            ok = any(isinstance(n, ast.Return) and norm(n.value) == "%s(**%s)" % (cf.params[0], tmp[0].targets[0].id) for n in walk_body(cf))
     if ok:
         r.ok(site(cf), "cls(**other._contents())")
     else:
@@ -255,7 +269,8 @@ def rule_best_match(ctx, rid="R4.5"):
     r = ctx.rule(rid, "best_match returns an element of its input or of the context tree below it, never a new object", floor=3)
     rets = [n for n in cfg.live if n.kind == "return"]
     names = {n.ast.value.id for n in rets if isinstance(n.ast.value, ast.Name)}
-    nonname = [n for n in rets if n.ast.value is not None and not isinstance(n.ast.value, ast.Name)]
+    nonname = [n for n in rets if n.ast.value is not None and not isinstance(n.ast.value, ast.Name)
+               and not (isinstance(n.ast.value, ast.Constant) and n.ast.value.value is None)]
     for n in nonname:
         r.fail("%s|return|%s" % (f.qual, norm(n.ast.value)), site(f, n.ast), "returns a computed value: %s" % norm(n.ast.value))
     ep = f.params[0]
@@ -266,7 +281,13 @@ def rule_best_match(ctx, rid="R4.5"):
                 ok = False
                 why = ""
                 if isinstance(v, ast.Call) and norm(v.func) in ("next", "max", "min"):
-                    src = norm(v.args[0]) if v.args else ""
+                    a0 = v.args[0] if v.args else None
+                    if isinstance(a0, ast.Name) and a0.id != ep:
+                        # a temporary holding the candidates
+                        td = [x.value for x in walk_body(f) if isinstance(x, ast.Assign) and any(isinstance(t, ast.Name) and t.id == a0.id for t in x.targets)]
+                        if len(td) == 1:
+                            a0 = td[0]
+                    src = norm(a0) if a0 is not None else ""
                     if norm(v.func) == "next" and src == ep:
                         ok, why = True, "next(errors, None)"
                     elif src.startswith("itertools.chain([%s], %s)" % (var, ep)) or src == ep:
